@@ -6,6 +6,9 @@ import os
 VERIF = os.path.dirname(os.path.dirname(os.path.abspath(__file__)))
 
 CHECKS = {
+    "C16": ("record-only capture of the driver path consumed by the real single and coupled SDE schemes; independent numpy Euler recursion and closed forms (constant, diagonal) as oracle; df monitors on fine meshes around every tenor",
+            "Held-on-observed: scheme = Euler recursion for Constant / DiagX / Libor / ForwardMarket coefficients with 1-d and copula drivers, both components of the coupled pair at levels 1..2, epsilon = h^BG, coarse driver drift of the level below; df(0)=1, positive, non-increasing, continuous.",
+            "Libor model with a copula driver not run (nested quadrature).", "3/C16"),
     "C15": ("record-only taps on the variate sources (scripted jump counts; recorded jump times, sampled states / jump sizes, normals) around the real simulators in their three modes; the path is recomputed by the harness from the recorded variates; direct calls of the two build_finer_grid closures",
             "Held-on-observed: times 0 = t_0 < ... = T, running jump sums and running diffusion sums for 2..13 product dates, step cap incl. after the last jump and on paths without jump, original points kept, inserted points repeat the previous value, fine/coarse aligned; direct, 1-d chain, copula chain, 1-d coupling, copula coupling.",
             "Finite-variation copulas; small grids.", "3/C15"),
